@@ -278,14 +278,15 @@ class World:
             pass
         raise Unsupported('no return type for ' + repo.qualname_of(fn))
 
-    def type_facts(self, v, heap, entry_heap=None):
+    def type_facts(self, v, heap, entry_heap=None, owner=None):
         """Assumptions that hold of every well-typed value: refs allocated, dynamic class within static class.
         A value read from a heap array that has not been written since entry was allocated on entry."""
         out = []
         ty = v.ty
         if entry_heap is not None and v.py == 'H0':
-            heap_alloc = entry_heap
-            out.append(self._alloc_fact(v, entry_heap))
+            # read from a field array not written since entry: if the owner existed on entry, so did the value
+            f = self._alloc_fact(v, entry_heap)
+            out.append(f if owner is None else z3.Implies(entry_heap.is_alloc(owner), f))
         if isinstance(ty, TObj):
             ok = z3.And(v.term > 0, heap.is_alloc(v.term), self.isinstance_term(v.term, ty.cls))
             out.append(z3.Or(v.term == 0, ok) if ty.nullable else ok)
@@ -294,6 +295,8 @@ class World:
             out.append(z3.Or(v.term == 0, ok) if ty.nullable else ok)
         elif isinstance(ty, TDict):
             out.append(z3.And(v.term > 0, heap.is_alloc(v.term), heap.dict_size(v.term) >= 0, cls_of(v.term) == 2))
+            if ty.ordered:
+                out += heap.odict_facts(ty.k, v.term)
         elif isinstance(ty, TSet):
             out.append(z3.And(v.term > 0, heap.is_alloc(v.term), cls_of(v.term) == 3))
         elif isinstance(ty, TSeq):
